@@ -435,6 +435,7 @@ package expr
 // into; every other message is returned as it is
 //@ func (e *FieldExpression) unwrapOneof(obj) (res)
 //@   requires obj != nil && validItem(obj)
+//@   defines res == foUnwrapS(obj)
 //@   let name = string(pbName(pbDesc(pbReflect(obj))))
 //@   let m = pbReflect(obj)
 //@   let os = pbOneofs(pbDesc(m))
@@ -443,6 +444,14 @@ package expr
 // a choice wrapper (any "...ValueX" message) with its one oneof set yields the chosen element
 //@   ensures (strsuffix("ValueX", name) || name == "ContainedResource") && pbOneofsLen(os) == 1 && pbOneofsGet(os, 0) != nil && fld != nil ==> res == pbIface(pbMsg(pbGet(m, fld)))
 //@   ensures res != nil
+//@   assigns nothing
+// C02 (choice elements are reached by their base name and yield the chosen value): in strict
+// mode every navigated element that is neither an Any nor a ContainedResource goes through
+// unwrapOneof, whatever the field is called
+//@ func (e *FieldExpression) Evaluate$1(obj) (res, err)
+//@   requires e != nil && obj != nil && validItem(obj)
+//@   ensures !istype(obj, *anypb.Any) && !istype(obj, *bcrpb.ContainedResource) ==> err == nil && res == foUnwrapS(obj)
+//@   ensures err != nil ==> res == nil
 //@   assigns nothing
 // the google/fhir helper fields of the date/time primitives are not FHIR elements; every other
 // camelCase name may be navigated on every other type
